@@ -932,11 +932,14 @@ class Parser:
         self._tokenizer._proc_macro = True
         return a
 
-    def proc_macro_arg(self, a: list[TokenInfo | str], **locs: int) -> ast.Constant:
+    def proc_macro_arg(self, a: TokenInfo | None, **locs: int) -> ast.Constant:
+        """The text after `cmd!`, as collected by Tokenizer.consume_proc_macro_params."""
         locs["col_offset"] += 1  # offset `!`
-        st = "".join((tok.string if isinstance(tok, TokenInfo) else tok) for tok in a).strip()
         self._tokenizer._proc_macro = False
-        return ast.Constant(value=st, **locs)
+        return ast.Constant(value=a.string.strip() if a else "", **locs)
+
+    def proc_group_arg(self, a: str, **locs: int) -> ast.Constant:
+        return ast.Constant(value=a.strip(), **locs)
 
     def _build_syntax_error(
         self,
